@@ -12,6 +12,28 @@ def _run(cmd, cwd, env, timeout):
     keeps a pipe open and would make us wait for the timeout although cargo has long exited. Afterwards (and on
     timeout) the whole process group is killed (cargo, the test binary, stray children)."""
     import tempfile
+    import fcntl
+    # one native build+run at a time per target directory: the test binary's file name does not depend on the path of
+    # the scratch copy, so two concurrent checks of different trees could run each other's binary
+    td = env.get("CARGO_TARGET_DIR")
+    lock_fh = None
+    if td:
+        os.makedirs(td, exist_ok=True)
+        lock_fh = open(td + ".lock", "w")
+        fcntl.flock(lock_fh, fcntl.LOCK_EX)
+    try:
+        return _run_locked(cmd, cwd, env, timeout)
+    finally:
+        if lock_fh:
+            try:
+                fcntl.flock(lock_fh, fcntl.LOCK_UN)
+                lock_fh.close()
+            except Exception:
+                pass
+
+
+def _run_locked(cmd, cwd, env, timeout):
+    import tempfile
     with tempfile.TemporaryFile(mode="w+", errors="replace") as fh:
         proc = subprocess.Popen(cmd, cwd=cwd, env=env, stdout=fh, stderr=subprocess.STDOUT, stdin=subprocess.DEVNULL, start_new_session=True)
         timed_out = False
